@@ -187,10 +187,13 @@ class DVCS(theory.Theory):
         """
         mem = pt.__dict__.pop('FTn', None)
         pt.FTn = 0
-        res = self.XUU(pt, **kwargs)
-        # restore old value if needed
-        if mem:
-            pt.in2polarization = mem
+        try:
+            res = self.XUU(pt, **kwargs)
+        finally:
+            # restore the point as it was
+            del pt.FTn
+            if mem is not None:
+                pt.FTn = mem
         return 2*pi*res
 
     def _phiharmonic(self, fun, pt, **kwargs):
